@@ -1598,6 +1598,8 @@ def even_abs(r, _depth=0):
     """|u|^(2k) = u^(2k) for real u, at any depth: an absolute value that is only ever squared is the value itself"""
     if _depth > 6:
         return r
+    if not any(TABLE.atoms[k_].kind == 'fn' and TABLE.atoms[k_].name == 'abs' for k_ in r.atoms(deep=True)):
+        return r        # no absolute value anywhere inside: nothing to do (and nothing to walk)
     changed = [False]
 
     def fix(poly):
